@@ -76,6 +76,16 @@ type Inst struct {
 
 func (in *Inst) String() string { return in.Text }
 
+// Where renders the instruction with its provenance: "MOVQ AX, BX" or, for
+// an instruction that stems from a macro expansion, "MOVQ AX, BX (statement
+// 12 of the expansion of mKeccakRound)".
+func (in *Inst) Where() string {
+	if in.Macro == "" {
+		return in.Text
+	}
+	return fmt.Sprintf("%s (statement %d of the expansion of %s)", in.Text, in.MacroSeq, in.Macro)
+}
+
 // Symbol is one TEXT symbol.
 type Symbol struct {
 	Name       string // Go-side name without package qualifier ("feMul")
@@ -347,15 +357,15 @@ func isIdentStart(r rune) bool {
 }
 func isIdentPart(r rune) bool { return isIdentStart(r) || (r >= '0' && r <= '9') }
 
-// token is a lexical piece of a line: an identifier, a number, a string, or a
+// ptok is a lexical piece of a line: an identifier, a number, a string, or a
 // single other character (kept verbatim).
-type token struct {
+type ptok struct {
 	text  string
 	ident bool
 }
 
-func tokenize(s string) []token {
-	var out []token
+func tokenize(s string) []ptok {
+	var out []ptok
 	for i := 0; i < len(s); {
 		r, w := utf8.DecodeRuneInString(s[i:])
 		switch {
@@ -368,14 +378,14 @@ func tokenize(s string) []token {
 				}
 				j += w2
 			}
-			out = append(out, token{s[i:j], true})
+			out = append(out, ptok{s[i:j], true})
 			i = j
 		case r >= '0' && r <= '9':
 			j := i + 1
 			for j < len(s) && (isIdentPart(rune(s[j])) && s[j] < 0x80 || s[j] == '.') {
 				j++
 			}
-			out = append(out, token{s[i:j], false})
+			out = append(out, ptok{s[i:j], false})
 			i = j
 		case r == '"':
 			j := i + 1
@@ -388,10 +398,10 @@ func tokenize(s string) []token {
 			if j < len(s) {
 				j++
 			}
-			out = append(out, token{s[i:j], false})
+			out = append(out, ptok{s[i:j], false})
 			i = j
 		default:
-			out = append(out, token{s[i : i+w], false})
+			out = append(out, ptok{s[i : i+w], false})
 			i += w
 		}
 	}
@@ -804,6 +814,9 @@ func (sc *scanner) text(ops []string, line int) {
 		sc.errorf(line, "TEXT symbol %q is not of the form name(SB)", nameOp)
 		sc.cur = nil
 		return
+	}
+	if strings.Contains(nameOp, "<ABIInternal>") {
+		sc.errorf(line, "TEXT %s uses the register ABI, which the front end does not model", nameOp)
 	}
 	raw, _ := staticName(strings.TrimSuffix(nameOp, "(SB)"))
 	name := raw
